@@ -94,6 +94,29 @@ fn one_config<V: VringT<dmn::Mem> + Clone + Send + Sync + 'static>(cfg: &Cfg, nq
     report::sample(&format!("nq{nq}t{}", masks.len()), jo! {"num_queues" => nq, "masks" => mdesc.as_str(), "dispatch_log" => s.queue_events().iter().map(|e| jo!{"thread_id" => e.thread_id, "device_event" => e.device_event, "ring_size" => e.ring_size}).collect::<Vec<J>>()});
     drop(fe);
     let _ = s.daemon.wait();
+    // the exit event uses id num_queues: raising it (daemon drop) must terminate every worker and
+    // must never reach the backend's handler
+    report::eval(1);
+    report::count("teardowns", 1);
+    match s.teardown() {
+        dmn::Teardown::Clean => {
+            let n = s.events().iter().filter(|e| e.device_event as usize == nq).count();
+            if n > 0 {
+                report::violation("C17:exit-event:delivered-to-backend", jo! {"num_queues" => nq, "masks" => mdesc.as_str(), "deliveries" => n}, cfg.replay(case));
+            } else {
+                report::observe("exit-event:terminated-all-workers", jo! {"num_queues" => nq, "masks" => mdesc.as_str()});
+            }
+        }
+        dmn::Teardown::ExitDelivered(n) => {
+            report::violation("C17:exit-event:delivered-to-backend", jo! {"num_queues" => nq, "masks" => mdesc.as_str(), "deliveries" => n}, cfg.replay(case));
+            std::process::exit(report::finish());
+        }
+        dmn::Teardown::Stuck(why) => {
+            report::violation("C17:exit-event:worker-not-terminated", jo! {"num_queues" => nq, "masks" => mdesc.as_str(), "certificate" => why}, cfg.replay(case));
+            std::process::exit(report::finish());
+        }
+        dmn::Teardown::Timeout => report::inconclusive("teardown watchdog expired"),
+    }
 }
 
 fn configs(cfg: &Cfg, rng: &mut Rng) -> Vec<(usize, Vec<u64>)> {
